@@ -24,8 +24,8 @@ MANIFEST = {
     'technique': 'deductive: VCs from the real AST of Trajectory.mean_squared_displacement, induction lemmas over the proved algebraic form; z3/cvc5; '
                  'native replay; brute-force double loop on random triclinic trajectories as bounded stand-in',
 }
-UNITS = ['unit_msd', 'unit_lemmas', 'unit_dependencies']
-BOUNDED = ['bounded_msd', 'bounded_purity']
+UNITS = ['unit_msd', 'unit_lemmas', 'unit_dependencies', 'unit_plumbing']
+BOUNDED = ['bounded_msd', 'bounded_purity', 'bounded_plumbing']
 META = {'clauses': {'C06.pad': 'P', 'C06.S2': 'A (FFT theorem) + P (bookkeeping)', 'C06.S1': 'P', 'C06.msd': 'P', 'C06.cart': 'P', 'C06.tracer': 'P (C14 unit re-run)', 'C06.dist': 'P (C01 units re-run)'},
         'not_decided': ['round-off of the FFT route against the direct sum (A-REAL): bounded comparison with tolerance only']}
 
@@ -276,6 +276,29 @@ def replay_msd(inputs):
         Dref = np.mean(refd[:, -1] ** 2) * 1e-20 / (2 * d * T * 1e-15)
         if not np.isclose(D, Dref, rtol=1e-8, atol=0):
             bad.append(f'tracer_diffusivity(d={d}) = {D} != {Dref}')
+    # the same motion handed over as displacements (coords_are_displacement=True, as the result of a drift correction is), and the drift-corrected
+    # trajectory of a system whose drift is zero: same MSD, same distances
+    if msd.shape == (N, T) and not np.iscomplexobj(msd):
+        trd = Trajectory(species=[Element('Li')] * N, coords=steps.copy(), lattice=lat.matrix, time_step=1e-15, metadata={'temperature': 300},
+                         coords_are_displacement=True, base_positions=base.copy())
+        for name, other in (('a trajectory given as displacements', trd),):
+            m2 = np.asarray(other.mean_squared_displacement())
+            d2 = np.asarray(other.distances_from_base_position())
+            if m2.shape != msd.shape or not np.allclose(m2, ref, rtol=1e-7, atol=1e-9 * max(1.0, ref.max())):
+                bad.append(f'MSD of {name} differs from the definition')
+            if d2.shape != refd.shape or not np.allclose(d2, refd, rtol=1e-8, atol=1e-10):
+                bad.append(f'distances of {name} differ from |unwrapped Cartesian displacement|')
+        # two species: correcting for the drift of a species that does not move leaves the other one's MSD as it was
+        if N >= 1:
+            sp2 = [Element('Li')] * N + [Element('O')]
+            c2 = np.concatenate([coords, np.broadcast_to(np.array([[0.3, 0.4, 0.5]]), (T, 1, 3))], axis=1)
+            corr = Trajectory(species=sp2, coords=c2, lattice=lat.matrix, time_step=1e-15, metadata={'temperature': 300}).apply_drift_correction(fixed_species='O')
+            m3 = np.asarray(corr.filter('Li').mean_squared_displacement())
+            if m3.shape != ref.shape or not np.allclose(m3, ref, rtol=1e-7, atol=1e-9 * max(1.0, ref.max())):
+                bad.append('MSD of the diffusing atoms after correcting for the (zero) drift of a static species differs from the definition')
+            m4 = np.asarray(corr.mean_squared_displacement())[:N]
+            if m4.shape != ref.shape or not np.allclose(m4, ref, rtol=1e-7, atol=1e-9 * max(1.0, ref.max())):
+                bad.append('MSD taken directly on the drift-corrected trajectory differs from the definition')
     # the same object asked again, and asked again after it was extended in place: the answers belong to the current frames
     msd_again = np.asarray(tr.mean_squared_displacement())
     dist_again = np.asarray(tr.distances_from_base_position())
@@ -325,3 +348,14 @@ from verif.native.purity import make_bounded as _make_purity  # noqa: E402
 from verif.props.purity_reg import REG as _PURITY_REG  # noqa: E402
 PURITY = _PURITY_REG['C06']
 bounded_purity = _make_purity('C06', PURITY)
+
+
+# plumbing around the anchored functions: forwarding contracts of the public wrappers, no state shared between calls or objects
+from verif.props import plumbing as _plumbing  # noqa: E402
+
+
+def unit_plumbing(tier):
+    return _plumbing.unit_plumbing(PROPERTY)
+
+
+bounded_plumbing = _plumbing.make_bounded(PROPERTY)
